@@ -73,7 +73,7 @@ class Backends:
         if self.linked:
             le = {}
             for e, fs in self.linked:
-                le[tuple(e)] = {tuple(f) for f in fs}
+                le[tuple(e)] = [tuple(f) for f in fs]
         self.im = InMemMap(name, use_latlon=place.latlon, dir=d, linked_edges=le, **kw)
         self.ids = []
         self.edges = []
